@@ -6,6 +6,6 @@ CONSTANTS
   Packages = {}
   K = 4
   Fmts = {"xlsx", "pptx", "epub"}
-  Wide = TRUE
+  Wide = "wide"
 CONSTRAINT Emit
 CHECK_DEADLOCK FALSE
